@@ -117,6 +117,10 @@ type c35case struct {
 	// BlockedWrite: another goroutine is inside Stream.Write, blocked on the FULL standard
 	// input pipe of an agent that never reads (Program.IgnoreStdin), when Close is called.
 	BlockedWrite bool
+	// SecondClose: a second Close on the same Stream from another goroutine, overlapping the
+	// first: "" none; "before" (started just before the first); "after0" (immediately after);
+	// "after<N>ms" (N milliseconds after the first was started).
+	SecondClose string `json:",omitempty"`
 }
 
 func (c c35case) key() string { return vr.J(c) }
@@ -127,6 +131,7 @@ type c35obs struct {
 	CloseErr   string `json:"close_err,omitempty"`
 	After      string `json:"agent_after_close"` // gone / zombie / alive:<state>
 	Waited     bool   `json:"cmd_process_state_set"`
+	Second     string `json:"second_close,omitempty"` // "<err or nil> agent=<liveness at its return>"
 	PipeFull   int    `json:"stdin_pipe_bytes_pending,omitempty"`
 	WriteEnded bool   `json:"blocked_write_returned,omitempty"`
 	WriteErr   string `json:"blocked_write_err,omitempty"`
@@ -303,15 +308,38 @@ func runC35(c c35case) (obs c35obs, violation string, err error) {
 		}
 	}
 
-	closed := make(chan error, 1)
-	go func() { closed <- stream.Close() }()
-	select {
-	case cerr := <-closed:
-		obs.CloseEnded = true
-		if cerr != nil {
-			obs.CloseErr = cerr.Error()
-		}
-	case <-time.After(watchdog):
+	// Every Close call is judged on its own: "Closing the stream to an agent process always
+	// returns, and the process has exited by then" - the liveness of the agent is read in the
+	// closing goroutine itself, immediately after its Close returned.
+	type closeResult struct {
+		err   error
+		after string
+	}
+	closer := func(ch chan closeResult) {
+		cerr := stream.Close()
+		ch <- closeResult{cerr, livenessOf(id)}
+	}
+	closed := make(chan closeResult, 1)
+	var closed2 chan closeResult
+	switch {
+	case c.SecondClose == "":
+		go closer(closed)
+	case c.SecondClose == "before":
+		closed2 = make(chan closeResult, 1)
+		go closer(closed2)
+		go closer(closed)
+	default:
+		closed2 = make(chan closeResult, 1)
+		var ms int
+		fmt.Sscanf(c.SecondClose, "after%d", &ms)
+		go closer(closed)
+		go func() {
+			time.Sleep(time.Duration(ms) * time.Millisecond) // sequencing only
+			closer(closed2)
+		}()
+	}
+	expiry := time.After(watchdog)
+	hung := func(which string) (c35obs, string, error) {
 		// "Closing the stream to an agent process always returns".
 		obs.After = livenessOf(id)
 		cleanup()
@@ -319,13 +347,36 @@ func runC35(c c35case) (obs c35obs, violation string, err error) {
 		case <-closed:
 		case <-time.After(5 * time.Second):
 		}
-		return obs, fmt.Sprintf("Close did not return within the %v watchdog (agent %s)", watchdog, obs.After), nil
+		return obs, fmt.Sprintf("%sClose did not return within the %v watchdog (agent %s)", which, watchdog, obs.After), nil
+	}
+	var first closeResult
+	select {
+	case first = <-closed:
+		obs.CloseEnded = true
+		if first.err != nil {
+			obs.CloseErr = first.err.Error()
+		}
+	case <-expiry:
+		return hung("")
+	}
+	var second *closeResult
+	if closed2 != nil {
+		select {
+		case res := <-closed2:
+			second = &res
+			obs.Second = fmt.Sprintf("%v agent=%s", res.err, res.after)
+		case <-expiry:
+			return hung("the second, overlapping ")
+		}
 	}
 	// "and the process has exited by then".
-	obs.After = livenessOf(id)
+	obs.After = first.after
 	obs.Waited = cmd.ProcessState != nil
-	if strings.HasPrefix(obs.After, "alive") {
-		return obs, "Close returned but the agent process is still running (" + obs.After + ")", nil
+	if strings.HasPrefix(first.after, "alive") {
+		return obs, fmt.Sprintf("Close returned (%v) but the agent process is still running (%s)", first.err, first.after), nil
+	}
+	if second != nil && strings.HasPrefix(second.after, "alive") {
+		return obs, fmt.Sprintf("the second, overlapping Close (%s) returned (%v) but the agent process is still running (%s)", c.SecondClose, second.err, second.after), nil
 	}
 	if c.BlockedWrite {
 		// Stream: "It guarantees that its Close method unblocks pending Read and Write calls."
@@ -416,11 +467,13 @@ func TestC35(t *testing.T) {
 	dieDelays := []int{0, 300, 1300}
 	termDelays := []int{0, 300}
 	pendingReads := []bool{false}
+	secondCloses := []string{"before", "after0", "after250ms"}
 	if vr.Thorough() {
 		// Dawdling longer than one (1 s) or two escalation stages; a termination delay longer than the dawdling.
 		dieDelays = []int{0, 300, 1300, 2300}
 		termDelays = []int{0, 300, 1500}
 		pendingReads = []bool{false, true}
+		secondCloses = []string{"before", "after0", "after250ms", "after1200ms", "after2100ms"}
 	}
 	var cases []c35case
 	for _, mode := range modes {
@@ -436,12 +489,20 @@ func TestC35(t *testing.T) {
 					for _, td := range termDelays {
 						for _, er := range []bool{false, true} {
 							for _, pr := range pendingReads {
-								cases = append(cases, c35case{agentProgram{mode, g, dd, code, false}, td, er, pr, false})
+								cases = append(cases, c35case{agentProgram{mode, g, dd, code, false}, td, er, pr, false, ""})
 								// A Write blocked on the full input pipe of an agent that never reads, crossed
 								// with every behaviour that can coexist with it (the agent must not be waiting
 								// for input closure) and the other dimensions.
 								if (mode == "term" || mode == "never") && dd <= 300 {
-									cases = append(cases, c35case{agentProgram{mode, g, dd, code, true}, td, er, pr, true})
+									cases = append(cases, c35case{agentProgram{mode, g, dd, code, true}, td, er, pr, true, ""})
+								}
+								// Two overlapping Close calls, for agents that take time to die (they dawdle,
+								// ignore the requests, or the stream itself waits a termination delay).
+								slow := mode == "never" || dd == 300 || (vr.Thorough() && dd > 300)
+								if slow && !pr && (vr.Thorough() || (!g && er)) {
+									for _, sc := range secondCloses {
+										cases = append(cases, c35case{agentProgram{mode, g, dd, code, false}, td, er, pr, false, sc})
+									}
 								}
 							}
 						}
@@ -451,8 +512,8 @@ func TestC35(t *testing.T) {
 		}
 	}
 	r.Rule(fmt.Sprintf("every fake agent program: termination behaviour %v x status of its voluntary exit %v x grandchild keeping stdout/stderr open {no,yes} x dawdling before exit %v ms, behind a real transport.Stream with termination delay %v ms, "+
-		"stderr receiver {nil,buffer}, pending Read %v, plus (for the SIGTERM-only and ignore-everything agents, which then never read their input) a concurrent 1 MiB Write blocked on the full stdin pipe at the moment Close is called; all combinations, each one real process tree. Non-trivial = the agent was alive and ready when Close was called or exited on its own under a non-zero "+
-		"termination delay (i.e. every executed case); distinct by the combination", modes, exitCodes, dieDelays, termDelays, pendingReads))
+		"stderr receiver {nil,buffer}, pending Read %v, plus (for the SIGTERM-only and ignore-everything agents, which then never read their input) a concurrent 1 MiB Write blocked on the full stdin pipe at the moment Close is called, plus (for agents that take time to die) a second, overlapping Close from another goroutine started %v the first - every Close call that returns is judged; all combinations, each one real process tree. Non-trivial = the agent was alive and ready when Close was called or exited on its own under a non-zero "+
+		"termination delay (i.e. every executed case); distinct by the combination", modes, exitCodes, dieDelays, termDelays, pendingReads, secondCloses))
 	r.Assume("real time and real OS scheduling: the behaviour alphabet is enumerated completely, the interleaving of agent and Close is whatever the OS produces",
 		fmt.Sprintf("'always returns' is judged with a %v watchdog; nothing else about latency is asserted", c35Watchdog()),
 		"only the agent process itself is required to be gone (the property and stream.go both exclude its descendants)",
@@ -495,6 +556,20 @@ func TestC35(t *testing.T) {
 			class += " wait-error=" + res.obs.CloseErr
 		} else {
 			class += " wait-error=nil"
+		}
+		if cases[i].SecondClose != "" {
+			cls := "returned-nil"
+			switch {
+			case res.obs.Second == "":
+				cls = "hung"
+			case strings.Contains(res.obs.Second, "already called"):
+				cls = "error:wait-already-called"
+			case strings.Contains(res.obs.Second, "no child"):
+				cls = "error:ECHILD"
+			case !strings.HasPrefix(res.obs.Second, "<nil>"):
+				cls = "error:" + strings.SplitN(res.obs.Second, " agent=", 2)[0]
+			}
+			class += " second-close=" + cls
 		}
 		if cases[i].BlockedWrite {
 			switch {
